@@ -34,20 +34,21 @@ type killDesc struct {
 }
 
 type histDesc struct {
-	Idx     int64      `json:"idx"`
-	Kind    string     `json:"kind"` // inproc | kill
-	W       int        `json:"workers"`
-	Share   int        `json:"share"` // callers per core instance (Service): 1 = each its own
-	Calls   []int      `json:"calls"`
-	Mode    string     `json:"mode"` // gated | free
-	Policy  string     `json:"policy"`
-	Faults  string     `json:"faults"`  // none | light | heavy
-	Foreign [][]string `json:"foreign"` // per foreign writer: "cas" | "put"
-	Preset  int64      `json:"preset"`  // -1 = key absent
-	Restart [][]bool   `json:"restart,omitempty"`
-	Kill    *killDesc  `json:"kill,omitempty"`
-	FSeed   uint64     `json:"fseed"`
-	SSeed   int64      `json:"sseed"`
+	Idx     int64           `json:"idx"`
+	Kind    string          `json:"kind"` // inproc | kill | remote
+	W       int             `json:"workers"`
+	Share   int             `json:"share"` // callers per core instance (Service): 1 = each its own
+	Calls   []int           `json:"calls"`
+	Mode    string          `json:"mode"` // gated | free
+	Policy  string          `json:"policy"`
+	Faults  string          `json:"faults"`  // none | light | heavy
+	Foreign [][]string      `json:"foreign"` // per foreign writer: "cas" | "put"
+	Preset  int64           `json:"preset"`  // -1 = key absent
+	Restart [][]bool        `json:"restart,omitempty"`
+	Kill    *killDesc       `json:"kill,omitempty"`
+	SrvRest *srvRestartDesc `json:"apricot_server_restart,omitempty"`
+	FSeed   uint64          `json:"fseed"`
+	SSeed   int64           `json:"sseed"`
 }
 
 type opRec struct {
@@ -65,9 +66,51 @@ type opRec struct {
 
 var policies = []string{"uniform", "reads-first", "serial", "foreign-between", "lifo-cas"}
 
-func genDesc(r *rand.Rand, idx int64, kill bool) *histDesc {
+// genRemoteDesc: 4-8 callers, each with its own RemoteService client, behind one apricot server.
+func genRemoteDesc(r *rand.Rand, d *histDesc) {
+	d.Kind = "remote"
+	d.W = []int{4, 6, 8}[r.Intn(3)]
+	d.Share = d.W
+	budget := 39
+	for f, nf := 0, r.Intn(3); f < nf; f++ {
+		var ops []string
+		for k := 2 + r.Intn(3); k > 0; k-- {
+			if f == 0 && r.Intn(4) == 0 {
+				ops = append(ops, "put")
+			} else {
+				ops = append(ops, "cas")
+			}
+			budget--
+		}
+		d.Foreign = append(d.Foreign, ops)
+	}
+	maxK := map[int]int{4: 6, 6: 4, 8: 3}[d.W]
+	if budget/d.W < maxK {
+		maxK = budget / d.W
+	}
+	k := 2 + r.Intn(maxK-1)
+	for i := 0; i < d.W; i++ {
+		d.Calls = append(d.Calls, k)
+	}
+	d.Mode = "gated"
+	if r.Intn(4) == 0 {
+		d.Mode = "free"
+	}
+	// starve-one: caller 0 loses CAS after CAS (exhausts any retry loop in front of the counter)
+	d.Policy = append([]string{"starve-one", "starve-one", "starve-one"}, policies...)[r.Intn(3+len(policies))]
+	d.Faults = []string{"none", "none", "none", "light", "light", "light", "light", "heavy", "heavy", "heavy"}[r.Intn(10)]
+	if r.Intn(2) == 0 {
+		a := r.Intn(d.W)
+		d.SrvRest = &srvRestartDesc{Actor: a, Call: 1 + r.Intn(d.Calls[a]-1), Hard: d.Mode == "free" && r.Intn(2) == 0}
+	}
+}
+
+func genDesc(r *rand.Rand, idx int64, kind string) *histDesc {
 	d := &histDesc{Idx: idx, Kind: "inproc", FSeed: r.Uint64(), SSeed: r.Int63()}
-	if kill {
+	kill := kind == "kill"
+	if kind == "remote" {
+		genRemoteDesc(r, d)
+	} else if kill {
 		d.Kind = "kill"
 		d.W = 2 + r.Intn(2)
 		d.Share = 1
@@ -172,6 +215,9 @@ type engine struct {
 	tagActor  map[string]int // foreign writers and the probe
 	tagGroup  map[string]int // incarnation tag of a core instance -> group
 	groups    []*group
+	remote    *remoteNode
+	quiesced  bool          // the scheduler is gone: later requests (the probe) pass
+	reqActor  map[int64]int // request arrival number -> caller it was attributed to
 	reqOrd    map[int]int
 	cur       map[int]int
 	curTag    map[int]string
@@ -278,6 +324,10 @@ func (e *engine) plan(req *consul.Req) consul.Fault {
 		sole, soleOK = e.sch.soleRunning()
 	}
 	e.mu.Lock()
+	if e.quiesced {
+		e.mu.Unlock()
+		return consul.Fault{}
+	}
 	actor, ok := e.tagActor[tag]
 	if g, isGroup := e.tagGroup[tag]; isGroup {
 		m := e.groups[g].members
@@ -301,6 +351,7 @@ func (e *engine) plan(req *consul.Req) consul.Fault {
 	}
 	ord := e.reqOrd[actor]
 	e.reqOrd[actor]++
+	e.reqActor[req.Seq] = actor
 	isWorker := actor < e.d.W
 	killPoint := ""
 	victimCall := false
@@ -376,8 +427,22 @@ func (e *engine) invokeGate(actor, j int) {
 func (e *engine) workerDriver(actor int) {
 	defer e.sch.done(actor)
 	g := e.groups[actor/e.d.Share]
+	var rcl *remoteClient
 	for j := 0; j < e.d.Calls[actor]; j++ {
-		cl, tag, err := e.instance(g, e.d.Restart != nil && e.d.Restart[actor][j])
+		var cl caller
+		var tag string
+		var err error
+		if e.d.Kind == "remote" {
+			sr := e.d.SrvRest
+			if sr != nil && sr.Actor == actor && sr.Call == j {
+				e.remote.stop(sr.Hard) // the apricot server goes down; this caller's next call meets it down
+			}
+			if rcl, err = e.remoteCaller(actor, rcl); err == nil {
+				cl, tag = rcl, rcl.tag
+			}
+		} else {
+			cl, tag, err = e.instance(g, e.d.Restart != nil && e.d.Restart[actor][j])
+		}
 		if err != nil {
 			e.problem("cannot create caller: " + err.Error())
 			return
@@ -400,6 +465,15 @@ func (e *engine) workerDriver(actor int) {
 			op.OK, op.N = true, n
 		}
 		e.addOp(op)
+		if sr := e.d.SrvRest; e.d.Kind == "remote" && sr != nil && sr.Actor == actor && sr.Call == j {
+			e.mu.Lock()
+			e.restarts++
+			e.mu.Unlock()
+			if err := e.remote.start(); err != nil { // ... and comes back as a new incarnation
+				e.problem("apricot server restart: " + err.Error())
+				return
+			}
+		}
 		if killed {
 			g.mu.Lock()
 			if g.cl == cl {
@@ -619,6 +693,14 @@ func (s *sched) weight(p *pend) int {
 	foreign := p.actor >= s.nWork
 	read := p.kind == "invoke" || p.kind == "get"
 	switch s.policy {
+	case "starve-one":
+		switch {
+		case p.actor == 0 && !read:
+			return 1 // its write waits until somebody else has moved the counter
+		case p.actor == 0:
+			return 40
+		}
+		return 20
 	case "reads-first":
 		if read {
 			return 50
@@ -765,9 +847,9 @@ func (e *engine) setKillDone(point string) {
 
 // ---------- one history ----------
 
-func runHistory(c *vlib.Ctx, idx int64, kill bool) {
+func runHistory(c *vlib.Ctx, idx int64, kind string) {
 	r := c.SubRand(idx)
-	d := genDesc(r, idx, kill)
+	d := genDesc(r, idx, kind)
 	id := c.Case(d)
 	t0 := time.Now()
 	defer func() {
@@ -786,7 +868,7 @@ func runHistory(c *vlib.Ctx, idx int64, kill bool) {
 	}
 	nActors := d.W + len(d.Foreign)
 	e := &engine{c: c, d: d, s: s, hc: &http.Client{Transport: &http.Transport{}},
-		tagActor: map[string]int{"probe": -1}, tagGroup: map[string]int{}, reqOrd: map[int]int{}, cur: map[int]int{}, curTag: map[int]string{}, callers: map[int]caller{}}
+		tagActor: map[string]int{"probe": -1}, tagGroup: map[string]int{}, reqActor: map[int64]int{}, reqOrd: map[int]int{}, cur: map[int]int{}, curTag: map[int]string{}, callers: map[int]caller{}}
 	for f := range d.Foreign {
 		e.tagActor[fmt.Sprintf("f%d", f)] = d.W + f
 	}
@@ -801,6 +883,17 @@ func runHistory(c *vlib.Ctx, idx int64, kill bool) {
 		e.sch = newSched(nActors, d.W, d.Policy, d.SSeed)
 	}
 	s.Plan = e.plan
+	if d.Kind == "remote" {
+		var err error
+		if e.remote, err = newRemoteNode(e); err == nil {
+			err = e.remote.start()
+		}
+		if err != nil {
+			c.Inconclusive("apricot server: " + err.Error())
+			return
+		}
+		defer e.remote.close()
+	}
 	var wg sync.WaitGroup
 	for i := 0; i < d.W; i++ {
 		wg.Add(1)
@@ -822,11 +915,31 @@ func runHistory(c *vlib.Ctx, idx int64, kill bool) {
 
 	// final probe: a fresh instance on the quiescent store; whatever happened to
 	// the counter before now shows in the number this call is given
-	if svc, err := newTaggedService(s.Addr, "probe"); err != nil {
-		e.problem("probe service: " + err.Error())
+	e.mu.Lock()
+	e.quiesced = true
+	e.mu.Unlock()
+	var probe interface{ NewRunNumber() (uint32, error) }
+	probeTag := "probe"
+	var perr error
+	if d.Kind == "remote" {
+		// through the chain as well: a fresh client (and a fresh server if it was left down)
+		if _, _, down := e.remote.state(); down {
+			perr = e.remote.start()
+		}
+		if perr == nil {
+			var rc *remoteClient
+			if rc, perr = e.remote.dial(); perr == nil {
+				probe, probeTag = rc.svc, rc.tag
+			}
+		}
 	} else {
-		op := opRec{Actor: nActors, Tag: "probe", Kind: "probe", Call: vlib.Seq()}
-		n, err := svc.NewRunNumber()
+		probe, perr = newTaggedService(s.Addr, "probe")
+	}
+	if perr != nil {
+		e.problem("probe service: " + perr.Error())
+	} else {
+		op := opRec{Actor: nActors, Tag: probeTag, Kind: "probe", Call: vlib.Seq()}
+		n, err := probe.NewRunNumber()
 		op.Ret = vlib.Seq()
 		if err != nil {
 			op.Err = err.Error()
